@@ -13,7 +13,7 @@ from typing import List, Optional, Set, Tuple
 
 from ..astutil import Defs
 from ..cfg import PARAM, cfg_of, reaching_def_nodes
-from ..core import AnalysisError, FuncInfo, attr_chain, kwarg, short, walk_no_nested, walk_stmts
+from ..core import AnalysisError, FuncInfo, attr_chain, cshort, kwarg, short, walk_no_nested, walk_stmts
 from ..effects import effects_of
 
 PARTIAL_ON_FLOAT = {"int", "round", "math.floor", "math.ceil", "math.trunc"}
@@ -236,14 +236,32 @@ def _nonempty_guard(prog, f: FuncInfo, sub: ast.Subscript, seq_t: str) -> Tuple[
         par = prog.parent(par)
     cfg = cfg_of(f)
     n = cfg.enclosing_stmt_node(prog, sub)
-    accepted = {seq_t, f"not {seq_t}", "truncated", "len(unique_dtypes) == 1", "num_cols == 0", "not name"}
+    d = Defs(f)
+
+    def accepted(e: ast.AST) -> bool:
+        t = short(e)
+        if t in (seq_t, f"not {seq_t}"):
+            return True
+        # a flag defined as a size comparison `<count> > <bound>` (e.g. truncated = num_cols > MAX * 2)
+        if isinstance(e, ast.Name):
+            v = d.single(e.id)
+            if isinstance(v, ast.Compare) and len(v.ops) == 1 and isinstance(v.ops[0], (ast.Gt, ast.GtE)):
+                return True
+        # len(U) == 1 where U = set(<the sequence>)
+        if isinstance(e, ast.Compare) and len(e.ops) == 1 and isinstance(e.ops[0], ast.Eq) and isinstance(e.left, ast.Call) \
+                and short(e.left.func) == "len" and isinstance(e.comparators[0], ast.Constant) and e.comparators[0].value == 1 \
+                and isinstance(e.left.args[0], ast.Name):
+            v = d.single(e.left.args[0].id)
+            if v is not None and short(v) == f"set({seq_t})":
+                return True
+        return False
     for t in cfg.nodes:
-        if t.kind == "test" and cfg.dominates(t, n) and short(t.ast) in accepted:
+        if t.kind == "test" and cfg.dominates(t, n) and accepted(t.ast):
             ts = [s for s, lab in t.succ if lab == "T"]
             fs = [s for s, lab in t.succ if lab == "F"]
             on_true = any(s is n or cfg.can_reach(s, n) for s in ts)
             on_false = any(s is n or cfg.can_reach(s, n) for s in fs)
-            neg = short(t.ast).startswith("not ") or short(t.ast) == "num_cols == 0"
+            neg = short(t.ast).startswith("not ")
             if (not neg and on_true and not on_false) or (neg and on_false and not on_true):
                 return True, f"dominated by `{short(t.ast)}`"
     return False, ""
@@ -254,17 +272,31 @@ def _footer(ctx) -> None:
     prog = ctx.prog
     f = prog.func("display._footer")
     pv = f.params[0]
-    t = short(f.node, 5000)
+    df = Defs(f)
+    roles = {}
+    for n, lst in df.assigns.items():
+        for v, st, how in lst:
+            if v is None:
+                continue
+            if short(v) == f"{pv}.shape" and how == "assign":
+                roles[n] = "SHAPE"
+            if short(v) == f"{pv}._dtype.kind.__name__":
+                roles[n] = "DT"
+    for st in walk_stmts(f.body):
+        if isinstance(st, ast.Assign) and isinstance(st.targets[0], ast.Tuple) and isinstance(st.value, ast.Name) \
+                and roles.get(st.value.id) == "SHAPE" and len(st.targets[0].elts) == 2:
+            roles[st.targets[0].elts[0].id] = "ROWS"
+            roles[st.targets[0].elts[1].id] = "COLS"
+    t = cshort(f.node, roles, 6000).replace('"', "'")
     problems = []
-    if f"shape = {pv}.shape" not in t:
+    if "SHAPE" not in roles.values():
         problems.append("the shape does not come from the object's shape")
-    rets = [short(s.value).replace('"', "'") for s in walk_stmts(f.body) if isinstance(s, ast.Return)]
-    if not any(r == "f'# {len(" + pv + ")} element vector <{dt}>'" for r in rets):
+    rets = [cshort(s_.value, roles).replace('"', "'") for s_ in walk_stmts(f.body) if isinstance(s_, ast.Return)]
+    if not any(r == "f'# {len(" + pv + ")} element vector <{DT}>'" for r in rets):
         problems.append(f"the vector footer is not `# {{len({pv})}} element vector <dtype>` (returns: {[r[:50] for r in rets]})")
-    if not any(r == "f'# {rows}×{cols} table <{d}>'" for r in rets):
-        problems.append("the table footer is not `# {rows}×{cols} table <dtypes>`")
-    if "rows, cols = shape" not in t or "{rows}×{cols}" not in t:
-        problems.append("rows x columns are not taken from the object's shape")
+    import re as _re
+    if not any(_re.fullmatch(r"f'# \{ROWS\}×\{COLS\} table <\{\w+\}>'", r) for r in rets):
+        problems.append("the table footer is not `# {rows}×{cols} table <dtypes>` with rows, cols unpacked from the object's shape")
     if t.count(f"{pv}._dtype.kind.__name__") < 2 or f"{pv}._dtype.nullable" not in t:
         problems.append("the dtype token does not come from the object's dtype with its nullability")
     ctx.ob("c.footer", f, "sources", not problems, "footer reads len(pv), pv.shape, pv._dtype", f.node, message="_footer: " + "; ".join(problems))
@@ -272,18 +304,20 @@ def _footer(ctx) -> None:
     d = Defs(g)
     problems = []
     # dtypes_all built over ALL columns
-    loops = [s for s in g.body if isinstance(s, ast.For) and short(s.iter) == "cols"]
+    colsv = [n for n, lst in d.assigns.items() if any(v is not None and short(v) == f"{g.params[0]}.cols()" for v, _, _ in lst)]
+    colsv = colsv[0] if colsv else "cols"
+    loops = [s for s in g.body if isinstance(s, ast.For) and short(s.iter) == colsv and isinstance(s.target, ast.Name)]
     allv = None
     for lp in loops:
         apps = [n for n in walk_no_nested(lp) if isinstance(n, ast.Call) and isinstance(n.func, ast.Attribute) and n.func.attr == "append"]
         if apps and all("dtype" in short(a.func.value) for a in apps):
             allv = short(apps[0].func.value)
-            tl = short(lp, 2000)
-            if "col._dtype.kind.__name__" not in tl or "col._dtype.nullable" not in tl:
+            tl = cshort(lp, {lp.target.id: "COL"}, 3000)
+            if "COL._dtype.kind.__name__" not in tl or "COL._dtype.nullable" not in tl:
                 problems.append("the per-column dtype list does not carry kind and nullability of each column")
-    cv = d.values("cols")
+    cv = d.values(colsv)
     if not cv or short(cv[0]) != f"{g.params[0]}.cols()":
-        problems.append("`cols` is not all columns of the table")
+        problems.append("the column sequence is not all columns of the table")
     if allv is None:
         problems.append("no dtype list is computed over ALL columns (the footer would describe only the displayed ones)")
     ctx.ob("c.footer", g, "all-columns", not problems, f"footer dtype list `{allv}` covers all columns", g.node, message="_repr_table: " + "; ".join(problems))
@@ -330,19 +364,26 @@ def _preview(ctx) -> None:
     f = prog.func("display._format_column")
     problems = []
     k = f.params[1]
-    pre = [s for s in walk_stmts(f.body) if isinstance(s, ast.Assign) and short(s.targets[0]) == "preview"]
-    texts = sorted(short(s.value) for s in pre)
-    vals = "vals"
-    want = sorted([f"list({vals}[:{k}]) + ['...'] + list({vals}[-{k}:])", f"list({vals})"])
-    if texts != want:
-        problems.append(f"preview is built as {texts}, expected {want}")
-    sel = [s for s in f.body if isinstance(s, ast.If) and any(x in pre for x in s.body)]
-    if not sel or short(sel[0].test) not in (f"len({vals}) > {k} * 2", f"len({vals}) > 2 * {k}"):
-        problems.append(f"the preview is truncated under `{short(sel[0].test) if sel else '?'}`, expected len({vals}) > {k} * 2")
     d = Defs(f)
-    vv = d.values(vals)
-    if not vv or short(vv[0]) != "col._underlying":
+    valsv = [n for n, lst in d.assigns.items() if any(v is not None and short(v) == f"{f.params[0]}._underlying" for v, _, _ in lst)]
+    if not valsv:
         problems.append("the previewed values are not the column's storage")
+        vals = "?"
+    else:
+        vals = valsv[0]
+    sel = [s_ for s_ in f.body if isinstance(s_, ast.If) and short(s_.test) in (f"len({vals}) > {k} * 2", f"len({vals}) > 2 * {k}")]
+    if not sel:
+        problems.append(f"the preview is not truncated exactly when len(values) > 2 * {k}")
+    else:
+        tb = [x for x in sel[0].body if isinstance(x, ast.Assign)]
+        fb = [x for x in sel[0].orelse if isinstance(x, ast.Assign)]
+        if len(tb) != 1 or len(fb) != 1 or short(tb[0].targets[0]) != short(fb[0].targets[0]):
+            problems.append("the two branches do not build the same preview variable")
+        else:
+            if short(tb[0].value) != f"list({vals}[:{k}]) + ['...'] + list({vals}[-{k}:])":
+                problems.append(f"the truncated preview is `{short(tb[0].value, 80)}`, expected head {k} + ['...'] + tail {k} (same size on both sides)")
+            if short(fb[0].value) != f"list({vals})":
+                problems.append(f"short data is previewed as `{short(fb[0].value)}`, expected every row")
     ctx.ob("d.preview", f, "symmetric", not problems, "head k + '...' + tail k iff len > 2k, else everything", f.node, message="; ".join(problems))
     # halving count per path
     problems = []
@@ -381,8 +422,15 @@ def _preview(ctx) -> None:
                                 f"{inside}); must be exactly once: tables with a _repr_rows override (peek) would show too few rows")
     ctx.ob("d.preview", f, "one-halving", not problems, "row budget // 2 exactly once on every path", f.node, message="; ".join(problems))
     # table body rows: all formatted columns have the same number of lines; ellipsis column matches
-    t = short(g.node, 8000)
-    ok = "[_format_column(cols[i], max_preview=max_preview) for i in col_indices]" in t
+    ok = False
+    for n in walk_no_nested(g.node):
+        if isinstance(n, ast.ListComp) and isinstance(n.elt, ast.Call) and short(n.elt.func) == "_format_column" \
+                and len(n.generators) == 1 and not n.generators[0].ifs and isinstance(n.generators[0].iter, ast.Name) and n.elt.args:
+            a0 = n.elt.args[0]
+            kw = kwarg(n.elt, k) or (n.elt.args[1] if len(n.elt.args) > 1 else None)
+            if isinstance(a0, ast.Subscript) and isinstance(a0.slice, ast.Name) and a0.slice.id == n.generators[0].target.id \
+                    and isinstance(kw, ast.Name):
+                ok = True
     ctx.ob("d.preview", g, "same-budget-all-columns", ok, "every displayed column is formatted with the same preview size", g.node,
            message="_repr_table does not format every displayed column with the same preview size")
 
@@ -392,17 +440,28 @@ def _headers(ctx) -> None:
     prog = ctx.prog
     f = prog.func("display._compute_headers")
     d = Defs(f)
-    apps = [n for n in walk_no_nested(f.node) if isinstance(n, ast.Call) and short(n.func) == "display_names.append"]
+    rets = [s_ for s_ in walk_stmts(f.body) if isinstance(s_, ast.Return) and isinstance(s_.value, ast.Tuple) and s_.value.elts]
+    disp_list = short(rets[0].value.elts[0]) if rets else "display_names"
+    apps = [n for n in walk_no_nested(f.node) if isinstance(n, ast.Call) and short(n.func) == f"{disp_list}.append"]
     ok = False
     if len(apps) == 1:
         a = apps[0].args[0]
-        vs = [short(v) for v in d.values(a.id)] if isinstance(a, ast.Name) else [short(a)]
-        ok = vs in (["col._name or ''"], ['col._name or ""'])
+        loop = [s_ for s_ in f.body if isinstance(s_, ast.For) and any(x is apps[0] for x in walk_no_nested(s_))]
+        colv = None
+        if loop:
+            tg = [n.id for n in ast.walk(loop[0].target) if isinstance(n, ast.Name)]
+            colv = tg[-1] if tg else None
+        vs = [short(v).replace('"', "'") for v in d.values(a.id)] if isinstance(a, ast.Name) else [short(a).replace('"', "'")]
+        ok = colv is not None and vs == [f"{colv}._name or ''"]
     ctx.ob("e.headers", f, "display-name", ok, "display name = stored name (or '' when unnamed)", f.node,
            message="the header's display names are not the stored column names")
     g = prog.func("display._header_rows")
-    t = short(g.node, 4000)
-    ok = "repr(name)" in t and "_needs_quote(name)" in t and "for name in display_names" in t
+    dn = g.params[0]
+    ok = False
+    for lp in [s_ for s_ in walk_stmts(g.body) if isinstance(s_, ast.For) and short(s_.iter) == dn and isinstance(s_.target, ast.Name)]:
+        t = cshort(lp, {lp.target.id: "NAME"}, 3000)
+        if "repr(NAME)" in t and "_needs_quote(NAME)" in t:
+            ok = True
     ctx.ob("e.headers", g, "header-row", ok, "names printed verbatim, quoted by repr when needed", g.node,
            message="_header_rows no longer prints the display names verbatim / repr-quoted")
 
